@@ -17,7 +17,7 @@ from .. import facts as F
 from .. import tabeval
 from .. import terms as T
 from ..mergemodel import TE, MergeModel
-from .c16 import check_absorption, check_usage_laws, usage_table
+from .c16 import check_absorption, check_usage_laws, result_exprs, usage_table
 
 
 def check_width_table(mm, rep):
@@ -211,6 +211,35 @@ def check_conflict_arms(fx, mm, rep):
         rep.oblige(bool(ok), "R15.4", "conflict_with-accumulates", F.loc(cw["span"]), "conflict_with does not gather the conflicts and reasons of both operands into the result")
 
 
+def check_any_identity(mm, rep):
+    """`Any` carries no information: for every constructor V (conflicts and equalities aside) each arm merge can select for
+    (V, Any) and (Any, V) answers with the V operand as it stands."""
+    n = 0
+    for V in mm.variants:
+        if V in ("Conflict", "Equal", "Any"):
+            continue
+        for a, b, keep in ((V, "Any", mm.left), ("Any", V, mm.right)):
+            sel = mm.select(a, b)
+            n += 1
+            bad = []
+            for arm in sel:
+                if arm.delegate:
+                    continue
+                results = result_exprs(arm.node["body"])
+                ok = bool(results) and all(kind == "expression" and F.local_of(F.strip(node["args"][0])) == keep for kind, node, ps in results)
+                if not ok:
+                    bad.append(arm)
+            rep.oblige(
+                not bad,
+                "R15.1",
+                f"any-identity:{a}x{b}",
+                bad[0].where() if bad else "-",
+                f"merge({a}, {b}) can select arm {bad[0].label() if bad else ''}, which does not answer with the {V} operand as it stands: combining a type with `Any` (no information) changes or conflicts it",
+                sample={"rule": "R15.1", "pair": f"{a}x{b}", "arms": [x.label() for x in sel]} if n <= 4 else None,
+            )
+    rep.floor("R15.1", n, 10, "constructor x Any pairs")
+
+
 def check(fx, rep, tier):
     mm = MergeModel(fx)
     if not rep.anchor("R15.1", mm.ok, "; ".join(mm.problems) or "merge model"):
@@ -240,6 +269,11 @@ def check(fx, rep, tier):
     from .c16 import check_diagonal
 
     check_diagonal(mm, core.Retag(rep, "R15.3"))
+    check_any_identity(mm, rep)
+    # evidence is joined across equalities only if equalities are recorded and resolved (C14 R14.2, re-evaluated)
+    from .. import core as _core
+
+    _core.import_rules(rep, fx, "C14", "R15.3", only_rules=("R14.2",), floor=3, what="equality-handling obligations (C14 R14.2) behind 'compatible evidence is joined'")
     check_contradictions(mm, rep)
     check_conflict_arms(fx, mm, rep)
     rep.exhaustive = True
